@@ -72,6 +72,13 @@ DONE.update({
 })
 DONE["C03"] = (DONE["C03"][0], DONE["C03"][1], DONE["C03"][2] + "; plus loom models of credit conservation under racing grants (m1,m3,m4,m8)", DONE["C03"][3], DONE["C03"][4])
 
+
+DONE.update({
+ "C19": ("enum+e2e", "exploration", "back-off generator: exhaustive operation sequences + long-outage patterns against the closed form; client loop: complete matrix of scripted server behaviours per connection attempt on loopback (one real-time execution per point, deadline hits re-run in isolation)",
+         "Backoff: every {advance,reset} sequence up to length 10/12 for every (initial,max,mult,max_count) tuple plus 400/2000-step outages with periodic resets; client loop: every script up to length 2 (quick) / 3-5 (thorough) over {reset, stall, http404, close0, close300, drop, mute, healthy} x max_retry_count x max_retry_interval with local connections at every position: attempt count, gap lower bounds, reset after success, give-up, non-retryable exit, parked request served",
+         "client loop: schedules are NOT owned (real runtime, real time); upper timing bounds are lenient (3x + 1 s); refused ports are observed indirectly"),
+})
+
 REASON_PENDING = "check not built yet (work in progress; planned engine in DESIGN.md section 3)"
 
 def main():
@@ -105,7 +112,8 @@ def main():
         },
         "engines": [
             {"name": "psim", "path": "harness/vmux", "serves_properties": [p for p in ids if p in DONE and DONE[p][0] == "psim"], "kind_free_text": "controlled-scheduler stateless exploration of the real multiplexor (hand-rolled executor + in-memory WebSocket)"},
-            {"name": "enum", "path": "harness/vmux, harness/vapp", "serves_properties": [p for p in ids if p in DONE and DONE[p][0] == "enum"], "kind_free_text": "bounded-exhaustive enumeration against reference models"},
+            {"name": "enum", "path": "harness/vmux, harness/vapp", "serves_properties": [p for p in ids if p in DONE and DONE[p][0].startswith("enum")], "kind_free_text": "bounded-exhaustive enumeration against reference models"},
+            {"name": "e2e", "path": "harness/vapp", "serves_properties": [p for p in ids if p in DONE and "e2e" in DONE[p][0]], "kind_free_text": "complete scenario matrices on real loopback sockets under the real runtime (schedules not owned; level exploration)"},
             {"name": "loom", "path": "tools/loomrun.py + /repo/penguin-mux/src/verif_loom.rs", "serves_properties": [p for p in ids if p in DONE and DONE[p][0] == "loom"], "kind_free_text": "loom model checking of atomics-level interleavings"},
         ],
         "checks": checks,
